@@ -10,7 +10,7 @@ use std::ffi::OsString;
 
 pub static DEF: PropDef = PropDef {
     id: "C09",
-    rule: "random: trees of 1-10 entries with hostile names (blanks, newlines, quotes, backslashes, '{}', leading '-', '$()', glob characters, multi-byte) x one or two -exec/-execdir ... ; actions whose argument templates hold 0-4 arguments with 0-3 '{}' each (alone, embedded in text, adjacent, near-misses '{' '}' '{ }', empty arguments) x scripted exit statuses per invocation (0, 1..255, death by signal) x command {rec recorder, missing name, true/false} x position of the action (plain; '( -exec ; -printf T ) -o -printf F'; negated; behind a -type test; two actions in sequence so that the second runs only where the first succeeded). Run in process and (1 in 8) through the built binary. A second sub-run uses file names that are not valid UTF-8 (raw bytes 0x80-0xFF in a flat directory) with bare and embedded {} templates. Oracle: one record per entry on which the action is reached, in visit order and interleaved per file as the evaluation prescribes; argv == template with every {} replaced by the path (./basename for -execdir), byte for byte, one argv element per template argument; cwd == the harness cwd (-exec) or the entry's parent directory (-execdir); truth == (child status 0), observed through labelled -printf output; find's exit status 0 whatever the children do. Non-trivial = (a name contains a shell-special character and some template argument has >= 2 '{}') or a failing child changes the subsequent output. Distinct = distinct case JSON.",
+    rule: "random: trees of 1-10 entries with hostile names (blanks, newlines, quotes, backslashes, '{}', leading '-', '$()', glob characters, multi-byte) x one or two -exec/-execdir ... ; actions whose argument templates hold 0-4 arguments with 0-3 '{}' each (alone, embedded in text, adjacent, near-misses '{' '}' '{ }', empty arguments) x scripted exit statuses per invocation (0, 1..255, death by signal) x command {rec recorder, missing name, true/false, a file without execute permission, a directory, a path through a regular file} x position of the action (plain; '( -exec ; -printf T ) -o -printf F'; negated; behind a -type test; two actions in sequence so that the second runs only where the first succeeded). Run in process and (1 in 8) through the built binary. A second sub-run uses file names that are not valid UTF-8 (raw bytes 0x80-0xFF in a flat directory) with bare and embedded {} templates. Oracle: one record per entry on which the action is reached, in visit order and interleaved per file as the evaluation prescribes; argv == template with every {} replaced by the path (./basename for -execdir), byte for byte, one argv element per template argument; cwd == the harness cwd (-exec) or the entry's parent directory (-execdir); truth == (child status 0), observed through labelled -printf output; find's exit status 0 whatever the children do. Non-trivial = (a name contains a shell-special character and some template argument has >= 2 '{}') or a failing child changes the subsequent output. Distinct = distinct case JSON.",
     assumptions: &[
         "starting points are spelled c/r or ./c/r (for -execdir the starting point itself is run from its parent as ./r)",
         "the recorder's log and script travel in the environment, not in argv",
@@ -24,7 +24,8 @@ pub static DEF: PropDef = PropDef {
 #[derive(Serialize, Deserialize, Debug, Clone)]
 pub struct Action {
     pub execdir: bool,
-    /// 0 rec, 1 missing command, 2 `true`, 3 `false`
+    /// 0 rec, 1 missing command, 2 `true`, 3 `false`, 4 a file without execute permission,
+    /// 5 a directory, 6 a path through a regular file (all three exist but cannot be run)
     pub cmd: u8,
     pub template: Vec<String>,
 }
@@ -81,7 +82,7 @@ pub fn gen_case(g: &mut Gen) -> Case {
         nodes.push(Node::new(path, kind));
     }
     let nact = if g.chance(1, 3) { 2 } else { 1 };
-    let actions = (0..nact).map(|_| Action { execdir: g.chance(1, 3), cmd: g.weighted(&[12, 1, 1, 1]) as u8, template: gen_template(g) }).collect();
+    let actions = (0..nact).map(|_| Action { execdir: g.chance(1, 3), cmd: g.weighted(&[12, 1, 1, 1, 1, 1, 1]) as u8, template: gen_template(g) }).collect();
     let script = g.vec_of(0, 24, |g| match g.weighted(&[6, 3, 1, 1]) {
         0 => 0u16,
         1 => g.pick(&[1u16, 2, 3, 42, 126, 127, 200]),
@@ -102,6 +103,11 @@ fn script_text(s: &[u16]) -> String {
 pub fn check(ctx: &mut Ctx, c: &Case) -> Outcome {
     ctx.fresh_case_dir();
     c.tree.build();
+    // commands that exist but cannot be run
+    let _ = std::fs::remove_file("noexec");
+    let _ = std::fs::remove_dir("adir");
+    std::fs::write("noexec", b"#!/bin/sh\nexit 0\n").unwrap();
+    let _ = std::fs::create_dir("adir");
     let wo = WalkOpts { follow: FollowMode::P, depth_first: c.depth, ..Default::default() };
     let (entries, _) = ref_paths(&c.root, &wo);
     // expression
@@ -115,7 +121,11 @@ pub fn check(ctx: &mut Ctx, c: &Case) -> Outcome {
             0 => rec_bin().to_string_lossy().into_owned(),
             1 => "no-such-command-xyz".into(),
             2 => "true".into(),
-            _ => "false".into(),
+            3 => "false".into(),
+            // created next to the tree, named by absolute path (-execdir changes the directory)
+            4 => format!("{}/noexec", std::env::current_dir().unwrap().display()),
+            5 => format!("{}/adir", std::env::current_dir().unwrap().display()),
+            _ => format!("{}/noexec/sub", std::env::current_dir().unwrap().display()),
         });
         t.extend(a.template.iter().cloned());
         t.push(";".into());
@@ -187,9 +197,8 @@ pub fn check(ctx: &mut Ctx, c: &Case) -> Outcome {
                     rec_index += 1;
                     st == 0
                 }
-                1 => false,
                 2 => true,
-                _ => false,
+                _ => false, // missing, `false`, or present but not runnable
             };
             if !ok {
                 all_true = false;
@@ -285,6 +294,7 @@ pub fn check(ctx: &mut Ctx, c: &Case) -> Outcome {
         .class_if(used_actions.len() == 2, "two-actions")
         .class_if(failing_changes_output, "failing-child-changes-output")
         .class_if(used_actions.iter().any(|a| a.cmd == 1), "missing-command")
+        .class_if(used_actions.iter().any(|a| a.cmd >= 4), "command-exists-but-cannot-be-run")
         .class_if(c.binary, "through-binary")
         .class_if(multi, "several-braces-in-one-argument")
         .class_if(entries.iter().any(|e| e.name().contains('\n')), "newline-in-name")
